@@ -158,6 +158,11 @@ func FindInsertionPoints(
 
 			// each value in the result contributes an insertion point
 			for entryI, iEntry := range rootList {
+				// a null element of a list of objects has nothing to stitch: it keeps its place
+				if iEntry == nil {
+					continue
+				}
+
 				resultEntry, ok := iEntry.(map[string]interface{})
 				if !ok {
 					return nil, errors.New("entry in result wasn't a map")
